@@ -55,6 +55,7 @@ class Opts:
         self.event_sync = False  # cudaEventSynchronize + Event Sync record (stream -1)
         self.lead_op = False  # first file entry is a host operator on its own thread at a drawn (possibly late) time
         self.ensure_kernel = False  # every rank has at least one linked kernel launch
+        self.kdurs = [1, 2, 3, 4, 7, 12]
         self.annotations = True
         self.template = False
         self.min_kernels = 0
@@ -83,7 +84,7 @@ def leaf_launch(draw, o: Opts, streams: List[int]) -> Dict[str, Any]:
     return {"t": "launch", "name": name, "kind": kind, "pre": pick(draw, SMALL),
             "dur": pick(draw, DUR + ([0] if o.allow_zero_call else [])),
             "stream": pick(draw, streams), "delay": pick(draw, ([0, 0] if o.allow_zero_delay else [1]) + [1, 2, 3, 6]),
-            "kgap": pick(draw, [0, 0, 1, 2, 4]), "kdur": pick(draw, ([0] if o.allow_zero_kdur else []) + [1, 2, 3, 4, 7, 12]),
+            "kgap": pick(draw, [0, 0, 1, 2, 4]), "kdur": pick(draw, ([0] if o.allow_zero_kdur else []) + list(o.kdurs)),
             "kname": kname, "fault": fault, "bytes": pick(draw, [0, 4, 1024, 4096]),
             "bw": pick(draw, [0.0, 0.5, 1.25, 12.0, 100.0])}
 
